@@ -534,12 +534,25 @@ Proof. unfold token_wf. rewrite andb_true_iff, negb_true_iff. intros [A B]. spli
 Lemma hdr_wf_parts h : hdr_wf h = true -> forallb field_wf h = true /\ forallb cl_wf h = true.
 Proof. unfold hdr_wf. rewrite andb_true_iff. tauto. Qed.
 
-Lemma request_line_parse url_norm m u :
+Lemma oeq_eq (x y : option bytes) :
+  match x, y with Some x, Some y => bytes_eqb x y | None, None => true | _, _ => false end = true -> x = y.
+Proof. destruct x, y; try discriminate; [intros H; apply bytes_eqb_eq in H; congruence|reflexivity]. Qed.
+Lemma gourl_eqb_eq a b : gourl_eqb a b = true -> a = b.
+Proof.
+  unfold gourl_eqb. rewrite !andb_true_iff. intros [[[[A B] C] D] E].
+  apply bytes_eqb_eq in A, C, D. apply oeq_eq in B, E. destruct a, b; cbn in *; congruence.
+Qed.
+Lemma gourl_eqb_refl a : gourl_eqb a a = true.
+Proof.
+  unfold gourl_eqb. rewrite !bytes_eqb_refl. destruct (g_user a), (g_query a); rewrite ?bytes_eqb_refl; reflexivity.
+Qed.
+
+Lemma request_line_parse url_norm m u g :
   token_wf m = true -> token_wf u = true ->
   match m with c :: _ => c =? DOLLAR | [] => true end = false ->
   (bytes_eqb m OPTIONS || negb (bytes_eqb u STAR)) = true ->
-  url_norm u = Some u ->
-  parse_request_line url_norm (m ++ SP :: u ++ SP :: RTSP10) = Ok (m, u, RTSP10) [].
+  url_norm u = Some g ->
+  parse_request_line url_norm (m ++ SP :: u ++ SP :: RTSP10) = Ok (m, fix_url g, RTSP10) [].
 Proof.
   intros Wm Wu D O U.
   destruct (token_wf_parts m Wm) as [Nm Tm]. destruct (token_wf_parts u Wu) as [Nu Tu].
@@ -575,15 +588,15 @@ Theorem request_roundtrip url_norm q rest :
 Proof.
   unfold request_wf. rewrite !andb_true_iff, !negb_true_iff.
   intros [[[[[[[[Wm Wu] D] R] O] U] L] Wh] B].
-  destruct (url_norm (q_url q)) as [u'|] eqn:EU; [|discriminate]. apply bytes_eqb_eq in U. subst u'.
+  destruct (url_norm (url_str q)) as [u'|] eqn:EU; [|discriminate]. apply gourl_eqb_eq in U. subst u'.
   destruct (hdr_wf_parts _ Wh) as [Wf Wc]. apply Z.leb_le in L, B.
   destruct (token_wf_parts _ Wm) as [Nm Tm]. destruct (token_wf_parts _ Wu) as [Nu Tu].
   unfold read_request, write_request.
-  replace ((q_method q ++ SP :: q_url q ++ SP :: RTSP10 ++ CRLF ++ write_header (set_cl (q_hdr q) (q_body q)) ++ q_body q) ++ rest)
-    with ((q_method q ++ SP :: q_url q ++ SP :: RTSP10) ++ CRLF ++ (write_header (set_cl (q_hdr q) (q_body q)) ++ (q_body q ++ rest))).
+  replace ((q_method q ++ SP :: url_str q ++ SP :: RTSP10 ++ CRLF ++ write_header (set_cl (q_hdr q) (q_body q)) ++ q_body q) ++ rest)
+    with ((q_method q ++ SP :: url_str q ++ SP :: RTSP10) ++ CRLF ++ (write_header (set_cl (q_hdr q) (q_body q)) ++ (q_body q ++ rest))).
   2:{ repeat (rewrite <- app_assoc || rewrite <- app_comm_cons). reflexivity. }
   rewrite read_line_crlf.
-  - rewrite (request_line_parse url_norm) by assumption.
+  - rewrite (request_line_parse url_norm _ _ (q_url q)) by assumption.
     rewrite read_header_write by assumption.
     rewrite read_body_exact; [reflexivity|apply content_length_norm; assumption|exact B].
   - intros I. apply in_app_or in I as [I|[I|I]]; [revert I; apply token_no_space; [exact Tm|reflexivity]|discriminate|].
